@@ -398,4 +398,205 @@ theorem boolMapInPlace_spec' (c : Cfg) (vc : VCfg Bool) (hs : vc.sentinel = fals
         unfold inBlk at hin'
         omega
 
+/-! ### counting covered coverage pixels -/
+
+theorem filter_or_length {α : Type} (f g : α → Bool) (l : List α) :
+    (l.filter fun k => f k || g k).length =
+      (l.filter f).length + (l.filter fun k => (f k || g k) && !f k).length := by
+  induction l with
+  | nil => rfl
+  | cons x xs ih =>
+    simp only [List.filter_cons]
+    cases f x <;> cases g x <;> simp [ih] <;> omega
+
+theorem Inv.count_covered {V : Type} [DecidableEq V] {c : Cfg} {vc : VCfg V} {s : State V}
+    (h : Inv c vc s) : ((List.range c.ncov).filter (covered c s)).length = nblk c s := by
+  have hperm : ((List.range c.ncov).filter (covered c s)).Perm (blockToCov c s).toList := by
+    rw [List.perm_ext_iff_of_nodup (List.filter_sublist.nodup List.nodup_range) h.blockToCov_nodup]
+    intro k
+    rw [List.mem_filter, List.mem_range, List.mem_iff_getElem?]
+    constructor
+    · rintro ⟨hk, hc⟩
+      obtain ⟨b, hb⟩ := (h.covered_iff_blockToCov hk).1 hc
+      exact ⟨b, by rw [Array.getElem?_toList]; exact hb⟩
+    · rintro ⟨b, hb⟩
+      rw [Array.getElem?_toList] at hb
+      have hk := (h.blockToCov_some hb).2.1
+      exact ⟨hk, (h.covered_iff_blockToCov hk).2 ⟨b, hb⟩⟩
+  rw [hperm.length_eq, Array.length_toList, blockToCov_size]
+
+/-! ### the copying form -/
+
+theorem reserve_sp_getElem?_lt {V : Type} (c : Cfg) (vc : VCfg V) (s : State V) (new : List Nat)
+    {i : Nat} (hi : i < s.sp.size) : (reserve c vc s new).sp[i]? = s.sp[i]? := by
+  simp only [reserve]
+  exact Array.getElem?_append_left hi
+
+theorem reserve_sp_getElem?_ge {V : Type} (c : Cfg) (vc : VCfg V) (s : State V) (new : List Nat)
+    {i : Nat} {x : V} (hi : s.sp.size ≤ i) (hx : (reserve c vc s new).sp[i]? = some x) :
+    x = rd s.sp 0 vc.sentinel := by
+  simp only [reserve] at hx
+  rw [Array.getElem?_append_right hi, Array.getElem?_replicate] at hx
+  split at hx
+  · exact (Option.some.inj hx).symm
+  · cases hx
+
+/-- zeroed storage with `a`'s storage copied over its prefix -/
+def cpInit (c : Cfg) (a b : State Bool) : Array Bool :=
+  (List.range a.sp.size).foldl (fun sp i => sp.setIfInBounds i (rd a.sp i false))
+    (Array.replicate
+      ((((List.range c.ncov).filter fun k => covered c a k || covered c b k).length + 1) * c.nfine)
+      false)
+
+theorem cpInit_eq (c : Cfg) (vc : VCfg Bool) (hs : vc.sentinel = false) (a b : State Bool)
+    (ha : Inv c vc a) : cpInit c a b = (reserve c vc a (boolNewCov c a b)).sp := by
+  have hsz : (((List.range c.ncov).filter fun k => covered c a k || covered c b k).length + 1)
+      * c.nfine = a.sp.size + (boolNewCov c a b).length * c.nfine := by
+    rw [filter_or_length, ha.count_covered, ha.size_eq, ← Nat.add_mul]
+    congr 1
+    unfold boolNewCov
+    omega
+  have h0 : rd a.sp 0 vc.sentinel = false := by rw [ha.sp_zero, hs]
+  apply Array.ext_getElem?
+  intro i
+  unfold cpInit
+  rw [foldl_range_prefix_getElem?, hsz, Array.getElem?_replicate]
+  simp only [reserve]
+  by_cases hi : i < a.sp.size
+  · rw [if_pos hi, if_pos (by omega), Array.getElem?_append_left hi, rd_eq_getElem _ _ _ hi,
+      Array.getElem?_eq_getElem hi]
+    rfl
+  · rw [if_neg hi, Array.getElem?_append_right (by omega), Array.getElem?_replicate, h0]
+    by_cases h2 : i < a.sp.size + (boolNewCov c a b).length * c.nfine
+    · rw [if_pos h2, if_pos (by omega)]
+    · rw [if_neg h2, if_neg (by omega)]
+
+/-- one step of the copying form -/
+def cpStep (c : Cfg) (op : Bool → Bool → Bool) (t a b : State Bool) (sp : Array Bool) (k : Nat) :
+    Array Bool :=
+  blockCombine c op (blockCopy c sp a.sp (blockStart c t k).toNat (blockStart c a k).toNat) b.sp
+    (blockStart c t k).toNat (blockStart c b k).toNat
+
+/-- what the copying step does to a cell of block `k` -/
+def cpCell (c : Cfg) (op : Bool → Bool → Bool) (t a b : State Bool) (k i : Nat) (o : Option Bool) :
+    Option Bool :=
+  (o.map fun _ => rd a.sp ((blockStart c a k).toNat + (i - (blockStart c t k).toNat)) false).map
+    fun x => op x (rd b.sp ((blockStart c b k).toNat + (i - (blockStart c t k).toNat)) false)
+
+theorem cpStep_in (c : Cfg) (op : Bool → Bool → Bool) (t a b : State Bool) (sp : Array Bool)
+    (k i : Nat) (h : inBlk c t k i) :
+    (cpStep c op t a b sp k)[i]? = cpCell c op t a b k i sp[i]? := by
+  unfold cpStep cpCell
+  rw [blockCombine_getElem?, blockCopy_getElem?]
+  exact (if_pos h).trans (congrArg _ (if_pos h))
+
+theorem cpStep_out (c : Cfg) (op : Bool → Bool → Bool) (t a b : State Bool) (sp : Array Bool)
+    (k i : Nat) (h : ¬ inBlk c t k i) : (cpStep c op t a b sp k)[i]? = sp[i]? := by
+  unfold cpStep
+  rw [blockCombine_getElem?, blockCopy_getElem?]
+  exact (if_neg h).trans (if_neg h)
+
+theorem boolMapCopy_eq (c : Cfg) (a b : State Bool) (op : Bool → Bool → Bool) :
+    boolMapCopy c a b op =
+      { cov := appendPixels c a.cov a.sp.size (boolNewCov c a b)
+        sp := (bRun c b).foldl
+          (cpStep c op ⟨appendPixels c a.cov a.sp.size (boolNewCov c a b), cpInit c a b⟩ a b)
+          (cpInit c a b) } := rfl
+
+/-- On well-formed operands the copying form builds literally the state the in-place form builds. -/
+theorem boolMapCopy_eq_inPlace (c : Cfg) (vc : VCfg Bool) (hs : vc.sentinel = false)
+    (a b : State Bool) (op : Bool → Bool → Bool) (ha : Inv c vc a) :
+    boolMapCopy c a b op = boolMapInPlace c vc a b op := by
+  rw [boolMapCopy_eq, boolMapInPlace_eq, cpInit_eq c vc hs a b ha]
+  obtain ⟨h1, _, hcov1⟩ := boolReserve_spec c vc a b ha
+  have hnd := nodup_boolNewCov c a b
+  have hsub : ∀ k, k < c.ncov → covered c b k = true →
+      covered c (reserve c vc a (boolNewCov c a b)) k = true := by
+    intro k hk hcb; rw [hcov1 k hk, hcb, Bool.or_true]
+  show State.mk (reserve c vc a (boolNewCov c a b)).cov
+    ((bRun c b).foldl (cpStep c op (reserve c vc a (boolNewCov c a b)) a b)
+      (reserve c vc a (boolNewCov c a b)).sp) = _
+  congr 1
+  apply Array.ext_getElem?
+  intro i
+  have hip := blkFold h1 hsub (ipStep c op _ b) (ipCell c op _ b)
+    (fun sp k i => ipStep_in c op _ b sp k i) (fun sp k i => ipStep_out c op _ b sp k i)
+    (reserve c vc a (boolNewCov c a b)).sp i
+  have hcp := blkFold h1 hsub (cpStep c op _ a b) (cpCell c op _ a b)
+    (fun sp k i => cpStep_in c op _ a b sp k i) (fun sp k i => cpStep_out c op _ a b sp k i)
+    (reserve c vc a (boolNewCov c a b)).sp i
+  by_cases hex : ∃ k, k < c.ncov ∧ covered c b k = true ∧
+      inBlk c (reserve c vc a (boolNewCov c a b)) k i
+  · obtain ⟨k, hk, hcb, hin⟩ := hex
+    rw [hip.1 k hk hcb hin, hcp.1 k hk hcb hin]
+    obtain ⟨_, _, _, _, hge, hle⟩ := h1.block_range hk (hsub k hk hcb)
+    have hin' := hin
+    unfold inBlk at hin'
+    have hlt : i < (reserve c vc a (boolNewCov c a b)).sp.size := by omega
+    obtain ⟨x, hx⟩ : ∃ x, (reserve c vc a (boolNewCov c a b)).sp[i]? = some x :=
+      ⟨_, Array.getElem?_eq_getElem hlt⟩
+    rw [hx]
+    unfold ipCell cpCell
+    simp only [Option.map_some]
+    congr 2
+    -- the cell of `a1` holds what the block copy writes
+    cases hca : covered c a k with
+    | true =>
+      have hnm : k ∉ boolNewCov c a b := fun hm => by
+        rw [((mem_boolNewCov c a b k).1 hm).2.1] at hca; cases hca
+      have hbs := reserve_blockStart_not_mem c vc a _ k hnm
+      obtain ⟨_, _, _, _, _, hle'⟩ := ha.block_range hk hca
+      rw [hbs] at hin'
+      have hia : i < a.sp.size := by omega
+      rw [reserve_sp_getElem?_lt c vc a _ hia] at hx
+      rw [hbs]
+      have : (blockStart c a k).toNat + (i - (blockStart c a k).toNat) = i := by omega
+      rw [this, rd, hx]
+      rfl
+    | false =>
+      have hm : k ∈ boolNewCov c a b := (mem_boolNewCov c a b k).2 ⟨hk, hca, hcb⟩
+      obtain ⟨t, ht⟩ := List.getElem?_of_mem hm
+      have hbs := reserve_blockStart_mem c vc a _ k t (by rw [ha.1]; exact hk) hnd ht
+      rw [hbs, Int.toNat_natCast] at hin'
+      have hx' := reserve_sp_getElem?_ge c vc a _ (by omega) hx
+      rw [ha.sp_zero, hs] at hx'
+      rw [hx', ha.uncovered_bs hk hca]
+      have hj : i - (blockStart c (reserve c vc a (boolNewCov c a b)) k).toNat < c.nfine := by
+        unfold inBlk at hin; omega
+      have := ha.2.2.1 _ hj
+      rw [hs] at this
+      simp only [Int.toNat_zero, Nat.zero_add, rd, this]
+      rfl
+  · have hno : ∀ k, k < c.ncov → covered c b k = true →
+        ¬ inBlk c (reserve c vc a (boolNewCov c a b)) k i :=
+      fun k hk hcb hin => hex ⟨k, hk, hcb, hin⟩
+    rw [hip.2 hno, hcp.2 hno]
+
+/-! ### specifications in the form the property theorems use -/
+
+theorem boolMapCopy_spec' (c : Cfg) (vc : VCfg Bool) (hs : vc.sentinel = false)
+    (a b : State Bool) (op : Bool → Bool → Bool) (ha : Inv c vc a) (hb : Inv c vc b) :
+    Inv c vc (boolMapCopy c a b op) ∧
+    (∀ p, p < c.npix → abs c vc (boolMapCopy c a b op) p
+        = denseBoolMap c (abs c vc a) (abs c vc b) (covered c b) op p) ∧
+    (∀ k, k < c.ncov → covered c (boolMapCopy c a b op) k
+        = (covered c a k || covered c b k)) := by
+  rw [boolMapCopy_eq_inPlace c vc hs a b op ha]
+  exact boolMapInPlace_spec' c vc hs a b op ha hb
+
+/-- inside `b`'s coverage the copying form is the pointwise operation -/
+theorem boolMapCopy_abs_on (c : Cfg) (vc : VCfg Bool) (hs : vc.sentinel = false)
+    (a b : State Bool) (op : Bool → Bool → Bool) (ha : Inv c vc a) (hb : Inv c vc b)
+    {p : Nat} (hp : p < c.npix) (hcb : covered c b (p >>> c.shift) = true) :
+    abs c vc (boolMapCopy c a b op) p = op (abs c vc a p) (abs c vc b p) := by
+  rw [(boolMapCopy_spec' c vc hs a b op ha hb).2.1 p hp]
+  unfold denseBoolMap
+  rw [if_pos hcb]
+
+/-- inside the coverage inversion negates -/
+theorem invertMap_abs_on (c : Cfg) (vc : VCfg Bool) (s : State Bool) (h : Inv c vc s)
+    {p : Nat} (hp : p < c.npix) (hc : covered c s (p >>> c.shift) = true) :
+    abs c vc (invertMap c s) p = !(abs c vc s p) := by
+  rw [invertMap_eq_mapGuard, (mapGuard_spec c vc s _ h).2.1 p hp, if_pos hc]
+
 end HS
